@@ -272,6 +272,10 @@ func buildScenario(r *vs.Rand, cfg scfg) *scenario {
 		childLabels["tier"] = "x"
 	}
 	spec["childLabels"] = childLabels
+	if r.Chance(85) {
+		// ControllerRevisions are found through the labels of spec.template
+		spec["template"] = vs.M{"metadata": vs.M{"labels": vs.DeepCopy(sel)}}
+	}
 	if r.Chance(40) {
 		spec["config"] = r.Pick([]string{"c1", "c2"})
 	}
